@@ -199,6 +199,7 @@ func genC01FedByCache(t *rapid.T, c c01Case, inits []uint64) c01Case {
 	c.Prog = pgen.GenBehaviours(t, g)
 	b := c.Prog.Beh["map_m"]
 	b.Sparse = rapid.SampledFrom([]uint64{2, 3}).Draw(t, "fedsparse") // silent on some blocks
+	b.SkipEmpty = true                                                // for which nothing is recorded in its files
 	c.Prog.Beh["map_m"] = b
 	last := genRun(t, c.Prog, c.Seg, c.Head)
 	last.Output, last.Prod = "map_r", true
